@@ -6,6 +6,8 @@ import (
 	"context"
 	"fmt"
 	"net"
+	"os"
+	"strings"
 	"testing"
 	"time"
 
@@ -15,6 +17,7 @@ import (
 	coreerrors "tunnox-core/internal/core/errors"
 	"tunnox-core/internal/core/storage"
 	"tunnox-core/internal/protocol/session"
+	"tunnox-core/internal/stream"
 	vk "tunnox-core/internal/verifkit"
 )
 
@@ -283,4 +286,262 @@ func c09XCase(t *testing.T, run *vk.Run, backend, mode string, nNodes, attempts 
 		}
 	}
 	run.Count("ended_not_resolving|"+backend, 1)
+}
+
+// ---------------------------------------------------------------- late target after a source re-attach
+//
+// The bridge's wait for its target and the routing record are both 30 s in the
+// production wiring and neither has a knob, so this scenario needs ~33 s of real time:
+// it runs in the thorough tier only (or with VERIF_C09_LATE=1 in any tier).
+// Source opens T on node-a; later the same listen client re-attaches to the waiting
+// bridge on another connection (real TunnelOpen -> handleExistingBridge ->
+// SetSourceConnection, confirmed through the bridge accessor); a control tunnel T2 is
+// opened at the same time and never re-attached. After 30 s the tunnels are sampled:
+//   source still waiting (bridge published, no target, a goroutine parked in
+//   Bridge.Start's wait) => every node must resolve the id;  bridge gone => must not.
+// "Still waiting but unroutable" is reported only if it holds at three samples 400 ms
+// apart (a wait that merely has not been torn down yet is not a violation).
+
+type c09LateTunnel struct {
+	w          *c09XWorld
+	store      string
+	mapping    *models.PortMapping
+	tid        string
+	reattachAt time.Duration // 0 = control, never re-attached
+	reattached bool
+	src, tgt   *miniClient
+	opened     time.Time
+}
+
+// c09IDConn is a server-side transport end that carries the authenticated client id,
+// like protocol adapters whose connection object knows its client.
+type c09IDConn struct {
+	*vk.BufConn
+	clientID int64
+}
+
+func (c *c09IDConn) GetClientID() int64 { return c.clientID }
+
+func c09ConnectWithIdentity(n *miniNode, clientID int64) (*miniClient, error) {
+	k := miniAddrSeq.Add(1)
+	remote := fmt.Sprintf("10.%d.%d.%d:41000", (k>>16)&255, (k>>8)&255, k&255)
+	sc, hc := vk.BufPipe(remote, "127.0.0.1:7000")
+	idc := &c09IDConn{BufConn: sc, clientID: clientID}
+	stc, err := n.SM.AcceptConnection(idc, idc)
+	if err != nil {
+		sc.Close()
+		hc.Close()
+		return nil, err
+	}
+	c := &miniClient{n: n, hc: hc, sc: sc, ConnID: stc.ID}
+	c.sp = stream.NewStreamProcessor(hc, hc, n.ctx)
+	n.mu.Lock()
+	n.clients = append(n.clients, c)
+	n.mu.Unlock()
+	return c, nil
+}
+
+func c09ParkedInBridgeStart() int {
+	n := 0
+	for _, g := range vk.Goroutines() {
+		if strings.HasPrefix(g.State, "select") && strings.Contains(g.Stack, "tunnel.(*Bridge).Start") {
+			n++
+		}
+	}
+	return n
+}
+
+func (lt *c09LateTunnel) sample(ctx context.Context) (waiting, resolved bool, info string) {
+	a := lt.w.nodes[0]
+	br := a.SM.GetTunnelBridgeByMappingID(lt.mapping.ID, 0)
+	waiting = br != nil && br.GetTargetConnectionID() == ""
+	resolved = true
+	for _, nd := range lt.w.nodes {
+		st, err := nd.Routing.LookupWaitingTunnel(ctx, lt.tid)
+		if err != nil || st == nil {
+			resolved = false
+			info += fmt.Sprintf("%s:%v ", nd.NodeID, err)
+		} else if st.SourceNodeID != "node-a" || st.MappingID != lt.mapping.ID {
+			info += fmt.Sprintf("%s:wrong-record(%s,%s) ", nd.NodeID, st.SourceNodeID, st.MappingID)
+		}
+	}
+	return
+}
+
+func TestVerifC09LateTargetAfterReattach(t *testing.T) {
+	vk.Quiet()
+	run := vk.Start(t, "C09", "late-target-after-reattach")
+	defer run.Finish()
+	run.Rule("thorough tier only (~33 s real time; Bridge wait and routing TTL are fixed at 30 s): worlds = store (memory | redis per node) x re-attach time (5 s | 15 s | 25 s after the open); per world tunnel T (source re-attaches on a second connection) and control T2 (never re-attached); " +
+		"sampled at +20 s (must resolve) and three times after +31.5 s (still waiting => must resolve, bridge gone => must not); distinct = (store, re-attach time, re-attached?)")
+	if !run.Thorough() && os.Getenv("VERIF_C09_LATE") == "" {
+		run.Observe("skipped", "needs ~33 s of real time: thorough tier only (set VERIF_C09_LATE=1 to force)")
+		return
+	}
+	if !c09AwaitLifecycleEnd() {
+		run.Count("late_watchdog", 1)
+		run.Floor("all_cases_conclusive", 1)
+		return
+	}
+	ctx := context.Background()
+	var tunnels []*c09LateTunnel
+	var worlds []*c09XWorld
+	defer func() {
+		for _, w := range worlds {
+			w.cleanup()
+		}
+		c09AwaitLifecycleEnd()
+	}()
+	k := 0
+	for _, store := range []string{"memory", "redis"} {
+		for _, at := range []time.Duration{5 * time.Second, 15 * time.Second, 25 * time.Second} {
+			w, err := c09NewXWorld(t, store, 2)
+			if err != nil {
+				run.Count("late_setup_failed", 1)
+				continue
+			}
+			worlds = append(worlds, w)
+			a := w.nodes[0]
+			src, tgt := a.NewClient(""), a.NewClient("")
+			for _, reAt := range []time.Duration{at, 0} {
+				k++
+				m, err := a.CC.CreatePortMapping(&models.PortMapping{ListenClientID: src.ClientID, TargetClientID: tgt.ClientID, Protocol: models.ProtocolTCP,
+					SourcePort: 18080 + k, TargetHost: "10.1.2.3", TargetPort: 5432, SecretKey: fmt.Sprintf("mk-late-%d", k), Status: models.MappingStatusActive})
+				if err != nil || m == nil {
+					run.Count("late_setup_failed", 1)
+					continue
+				}
+				lt := &c09LateTunnel{w: w, store: store, mapping: m, tid: fmt.Sprintf("tcp-tunnel-%d-%d", 1700000000000000000+int64(k), 18080+k), reattachAt: reAt, src: src, tgt: tgt}
+				sc := a.MustConnect("")
+				if ok, _ := sc.Login(src.ClientID, src.Secret, "tunnel"); !ok {
+					run.Count("late_setup_failed", 1)
+					continue
+				}
+				lt.opened = time.Now()
+				if ack, _ := c09OpenTunnel(sc, m.ID, lt.tid, m.SecretKey); ack == nil || !ack.Success {
+					run.Count("late_setup_failed", 1)
+					continue
+				}
+				if waiting, resolved, info := lt.sample(ctx); !waiting || !resolved {
+					run.Violation("C09:late|lost-while-waiting|store="+store+"|phase=after-open", map[string]any{"tunnel": lt.tid, "waiting": waiting, "info": info})
+					continue
+				}
+				tunnels = append(tunnels, lt)
+			}
+		}
+	}
+	if len(tunnels) == 0 {
+		run.Floor("all_cases_conclusive", 1)
+		return
+	}
+	first, last := tunnels[0].opened, tunnels[len(tunnels)-1].opened
+	sleepUntil := func(ref time.Time, d time.Duration) { time.Sleep(time.Until(ref.Add(d))) }
+	reattach := func(at time.Duration) {
+		for _, lt := range tunnels {
+			if lt.reattachAt != at {
+				continue
+			}
+			a := lt.w.nodes[0]
+			before := a.SM.GetTunnelBridgeByMappingID(lt.mapping.ID, 0)
+			if before == nil {
+				run.Count("late_bridge_gone_before_reattach", 1)
+				continue
+			}
+			oldSrc := before.GetSourceConnectionID()
+			// the re-attaching connection arrives on a transport that knows its client id
+			// (what session.extractClientID asks the stream's reader for)
+			rc, cerr := c09ConnectWithIdentity(a, lt.src.ClientID)
+			if cerr != nil {
+				run.Count("late_setup_failed", 1)
+				continue
+			}
+			if ok, _ := rc.Login(lt.src.ClientID, lt.src.Secret, "tunnel"); !ok {
+				run.Count("late_setup_failed", 1)
+				continue
+			}
+			_, _ = c09OpenTunnel(rc, lt.mapping.ID, lt.tid, lt.mapping.SecretKey)
+			after := a.SM.GetTunnelBridgeByMappingID(lt.mapping.ID, 0)
+			if after != nil && after.GetSourceConnectionID() != oldSrc && after.GetTargetConnectionID() == "" {
+				lt.reattached = true
+				run.Count("source_reattached_to_waiting_bridge|"+lt.store, 1)
+			} else {
+				run.Count("late_reattach_not_effective", 1)
+			}
+		}
+	}
+	mustResolve := func(phase string) {
+		for _, lt := range tunnels {
+			waiting, resolved, info := lt.sample(ctx)
+			if waiting && time.Since(lt.opened) < 29*time.Second {
+				if !resolved {
+					run.Violation("C09:late|lost-while-waiting|store="+lt.store+"|phase="+phase, map[string]any{"tunnel": lt.tid, "info": info, "reattached": lt.reattached})
+				} else {
+					run.Count("routable_while_waiting|"+phase, 1)
+				}
+			}
+		}
+	}
+	sleepUntil(last, 5*time.Second)
+	reattach(5 * time.Second)
+	mustResolve("after-reattach-5s")
+	sleepUntil(last, 15*time.Second)
+	reattach(15 * time.Second)
+	mustResolve("after-reattach-15s")
+	sleepUntil(first, 20*time.Second)
+	mustResolve("at-20s")
+	sleepUntil(last, 25*time.Second)
+	reattach(25 * time.Second)
+	mustResolve("after-reattach-25s")
+
+	// past the first 30 s of every tunnel
+	sleepUntil(last, 31500*time.Millisecond)
+	type verdict struct{ lostWhileWaiting, staleAfterEnd int }
+	v := make([]verdict, len(tunnels))
+	var lastInfo = make([]string, len(tunnels))
+	const samples = 3
+	for s := 0; s < samples; s++ {
+		parked := c09ParkedInBridgeStart()
+		for i, lt := range tunnels {
+			waiting, resolved, info := lt.sample(ctx)
+			lastInfo[i] = info
+			switch {
+			case waiting && !resolved && parked > 0:
+				v[i].lostWhileWaiting++
+			case !waiting && resolved:
+				v[i].staleAfterEnd++
+			case waiting && resolved:
+				run.Count("late_sample|still_waiting_and_routable", 1)
+			default:
+				run.Count("late_sample|ended_and_unroutable", 1)
+			}
+		}
+		if s < samples-1 {
+			time.Sleep(400 * time.Millisecond)
+		}
+	}
+	for i, lt := range tunnels {
+		re := fmt.Sprintf("reattached=%v", lt.reattached)
+		run.Eval(1)
+		run.Distinct(fmt.Sprintf("%s|reattach_at=%v|%s", lt.store, lt.reattachAt, re))
+		run.Count("sampled_after_30s|"+re, 1)
+		detail := map[string]any{"tunnel": lt.tid, "store": lt.store, "reattach_at_s": lt.reattachAt.Seconds(), "reattached": lt.reattached,
+			"age_s": time.Since(lt.opened).Seconds(), "lookups": lastInfo[i]}
+		switch {
+		case v[i].lostWhileWaiting == samples:
+			run.Violation("C09:late|source-still-waiting-but-unroutable|store="+lt.store+"|"+re, detail)
+		case v[i].staleAfterEnd == samples:
+			run.Violation("C09:late|stale-after-bridge-end|store="+lt.store+"|"+re, detail)
+		default:
+			run.Count("late_consistent|"+re, 1)
+		}
+	}
+	nw := int64(len(worlds))
+	run.Floor("sampled_after_30s|reattached=true", nw)
+	run.Floor("sampled_after_30s|reattached=false", nw)
+	run.Floor("source_reattached_to_waiting_bridge|memory", 3)
+	run.Floor("source_reattached_to_waiting_bridge|redis", 3)
+	run.Floor("routable_while_waiting|at-20s", 2*nw)
+	if run.Counter("late_setup_failed")+run.Counter("late_reattach_not_effective")+run.Counter("late_bridge_gone_before_reattach") > 0 {
+		run.Floor("all_cases_conclusive", 1)
+	}
 }
